@@ -133,7 +133,7 @@ def run(ctx):
                 continue
             gb, cond, panics_when = g
             srcs = internal_sources(F, f, cond)
-            if srcs and provably_positive(F, f, cond):
+            if srcs and (provably_positive(F, f, cond) or provably_positive_sym(F, f, gb)):
                 ctx.ok("R17.1", "%s|assert-provably-positive-%d" % (name, n_assert), "the asserted value depends on internal state but is bounded below by a positive constant on every such origin (sign analysis): the assert cannot fire", f.where(b), fmt(cond)[:140])
                 continue
             import hashlib
@@ -376,6 +376,11 @@ def lower_bound(F, fn, e, depth=0):
         if src[0] == "call" and src[1] in F.fns and F.fns[src[1]].rec.get("ret", "") == "std::option::Option<i64>" and "KW" in def_effects(F, src[1])["acquire"]:
             return min(1, d) if d is not None else None
         return None
+    if k == "field" and e[2] == "0" and e[1][0] == "variant" and e[1][2] == "Some":
+        src = e[1][1]       # the Some-payload of a weight read from the weight map (same invariant as above)
+        if src[0] == "call" and src[1] in F.fns and F.fns[src[1]].rec.get("ret", "") == "std::option::Option<i64>" and "KW" in def_effects(F, src[1])["acquire"]:
+            return 1
+        return None
     if k == "call" and e[1] in F.fns and not e[2]:
         g = F.fns[e[1]]           # argument-less local function (e.g. a size computed from constants)
         return lower_bound(F, g, g.origin_local(0), depth + 1)
@@ -402,6 +407,27 @@ def upper_const(F, fn, e):
         g = F.fns[e[1]]
         return upper_const(F, g, g.origin_local(0))
     return None
+
+
+def provably_positive_sym(F, fn, gb):
+    """path-sensitive form: on every symbolic path of fn (closures and combinators inlined, state-reading functions
+    opaque) that passes the assert at block gb, the asserted value is free of internal state or has a positive
+    constant lower bound"""
+    from sym import ipaths
+    paths = ipaths(F, fn, stop=lambda n: bool(def_effects(F, n)["acquire"]), depth=3, model_unwrap=True)
+    vals = []
+    for p in paths:
+        for a in p.atoms:
+            if a[0] == "bool" and a[3] == (fn.name, gb) and a[2] and a[1][0] == "binop" and a[1][1] == "Lt" and a[1][2][0] == "const" and a[1][2][1] == 0:
+                vals.append(a[1][3])
+    if not vals:
+        return False
+    for v in vals:
+        if internal_sources(F, fn, v):
+            lb = lower_bound(F, fn, v)
+            if lb is None or lb < 1:
+                return False
+    return True
 
 
 def provably_positive(F, fn, cond):
